@@ -329,3 +329,8 @@ Fixpoint prun (st : dmap) (h : list (N * pevent)) : dmap :=
   | [] => st
   | (t, e) :: r => prun (pstep t st e) r
   end.
+
+(* ------------------------------------------------------------------ publication failures *)
+(* register(): `reg.Valid = true; r.registerForDetector(reg)`; sendToDetector ignores what
+   client.Publish returns.  Outcome for the registration: (usable by the station, known to the detector). *)
+Definition register_outcome (publish_ok : bool) : bool * bool := (true, publish_ok).
